@@ -45,6 +45,23 @@ def instances(tier, seed):
             for algo in (("Hopcroft-Karp", "Hungarian") if tier == "thorough" or si % 3 == 0 else ("Hopcroft-Karp",)):
                 out.append(dict(op="ttno", kinds=kinds, parents=list(par), counts=list(cnt), table=[list(t) for t in tb], algo=algo,
                                 label="ttno %s parents=%s counts=%s %s table#%d" % ("".join(kinds), list(par), list(cnt), algo, si % len(tables)), key="ttno/%s" % algo))
+    # long thin trees (11 basis sets on 11-13 nodes): node / basis indices with two digits.  Dense comparison is out of reach (2048^2 symbolic entries): compared
+    # are the blocks of the operator on the basis sets the terms touch with every other ("spectator") basis set held in fixed basis states
+    L = 10
+    long_tables = [[{0: 1, L: 2}, {9: 3, L: 1}], [{1: 2, 2: 1, L: 4}, {2: 1, L: 4}, {1: 2}], [{9: 1, L: 1}, {2: 2, 9: 1}, {2: 2, L: 1}], [{L: 3}, {0: 3}, {L: 3}]]
+    shapes = {"chain": ([i for i in range(10)], [1] * 11),
+              "binary": ([(i - 1) // 2 for i in range(1, 11)], [1] * 11),
+              "star": ([0] * 10, [1] * 11),
+              "comb": ([0, 0, 2, 2, 4, 4, 6, 6, 8, 8, 10, 10], [0, 1, 0, 1, 1, 1, 1, 1, 1, 1, 1, 1, 1]),
+              "paired": ([0, 1, 1, 3, 3, 5], [1, 2, 2, 2, 1, 2, 1])}
+    for sname, (par, cnt) in shapes.items():
+        for ti, tb in enumerate(long_tables):
+            if tier == "quick" and sname in ("star", "paired") and ti % 2:
+                continue
+            table = [tuple(t.get(i, 0) for i in range(11)) for t in tb]
+            for algo in (("Hopcroft-Karp", "Hungarian") if tier == "thorough" or ti == 0 else ("Hopcroft-Karp",)):
+                out.append(dict(op="ttno", kinds=tuple(["s"] * 11), parents=list(par), counts=list(cnt), table=[list(t) for t in table], algo=algo, long=True,
+                                label="ttno long %s tree (11 spins, %d nodes) %s terms=%s" % (sname, len(cnt), algo, str(tb).replace(" ", "")), key="ttno/%s/long" % algo))
     for n in ((1, 2, 3, 4, 5, 6) if tier == "quick" else range(1, 10)):
         out.append(dict(op="constructors", n=n, label="tree constructors n=%d basis sets" % n, key="constructors"))
     return out
@@ -100,6 +117,9 @@ def make_harness(P):
                     ctx.check("construction rejected only for the identically-zero operator", ctx.all([ctx.eq(x, 0) for x in sums]))
                     return
                 raise
+            if P.get("long"):
+                _long_tree_blocks(ctx, ttno, tree, kinds, table, fs)
+                return
             dims = [b.nbas for b in bl]
             D = int(np.prod(dims))
             from checks.c16 import zeros_exact
@@ -124,6 +144,70 @@ def make_harness(P):
         finally:
             sm.scipy = saved
     return h
+
+
+class _N:
+    pass
+
+
+def _sliced(tn_nodes, basis_nodes, fix):
+    """shadow tree whose node tensors have the physical (up, down) legs of the basis sets in `fix` (id(basis) -> (x, y)) indexed away"""
+    sh = []
+    for tnode, bnode in zip(tn_nodes, basis_nodes):
+        t = np.asarray(tnode.tensor)
+        nch = len(tnode.children)
+        index = [slice(None)] * t.ndim
+        for k, b in enumerate(bnode.basis_sets):
+            if id(b) in fix:
+                x, y = fix[id(b)]
+                index[nch + 2 * k] = x
+                index[nch + 2 * k + 1] = y
+        n = _N()
+        n.tensor = t[tuple(index)]
+        sh.append(n)
+    pos = {id(t): i for i, t in enumerate(tn_nodes)}
+    for n, tnode in zip(sh, tn_nodes):
+        n.children = [sh[pos[id(c)]] for c in tnode.children]
+    tn = _N()
+    tn.node_list = sh
+    return tn
+
+
+def _long_tree_blocks(ctx, ttno, tree, kinds, table, fs):
+    from renormalizer.model.basis import BasisDummy
+    bnodes = tree.node_list
+    tnodes = ttno.node_list
+    ctx.check("long tree: operator nodes parallel the basis nodes", len(bnodes) == len(tnodes) and all(len(a.children) == len(b.children) for a, b in zip(bnodes, tnodes)))
+    phys = [b for bn in bnodes for b in bn.basis_sets if not isinstance(b, BasisDummy)]      # preorder
+    cre = [int("".join(ch for ch in str(b.dofs[0]) if ch.isdigit())) for b in phys]
+    active = set(i for t in table for i, k in enumerate(t) if k != 0)
+    spect = [b for b, c in zip(phys, cre) if c not in active]
+    act = [(b, c) for b, c in zip(phys, cre) if c in active]
+    configs = [dict((id(b), (0, 0)) for b in spect), dict((id(b), (1, 1)) for b in spect)]
+    for s_ in spect:
+        c = dict((id(b), (0, 0)) for b in spect)
+        c[id(s_)] = (1, 1)
+        configs.append(c)
+        c = dict((id(b), (0, 0)) for b in spect)
+        c[id(s_)] = (0, 1)
+        configs.append(c)
+    got, refs = [], []
+    for c in configs:
+        got.append(treelib._dense(_sliced(tnodes, bnodes, c), True))
+        ref = 0
+        for j, t in enumerate(table):
+            w = 1
+            for b, cr in zip(phys, cre):
+                if id(b) in c:
+                    x, y = c[id(b)]
+                    w = w * c01.local_matrix(kinds[cr], cr, t[cr])[x, y]
+            mat = np.ones((1, 1))
+            for b, cr in act:
+                mat = np.kron(mat, c01.local_matrix(kinds[cr], cr, t[cr]))
+            ref = ref + mat * (fs[j] * w)
+        refs.append(ref)
+    ctx.check("long tree: every block (spectator basis sets held in basis states) equals the sum of tensor products",
+              ctx.all([ctx.eq(g, r) for g, r in zip(got, refs)]))
 
 
 def make_constructors(P):
@@ -176,7 +260,8 @@ def main(tier, seed):
         explanation="The real TTNO construction (construct_symbolic_ttno, compose_symbolic_mo_general, symbolic_mo_to_numeric_mo_general, TTNO.todense) with every term factor symbolic on "
                     "a strided subset (quick 60 per basis family, thorough 400) of ALL rooted trees with up to 4 (5) nodes carrying 3-4 basis sets with 0, 1 or 2 sets per node (dummy "
                     "root/internal/leaf nodes), spin / electron / oscillator sites, Hopcroft-Karp and Hungarian: dense operator = sum of tensor products = linear-chain Mpo, also in a "
-                    "permuted order; tree constructors (linear, binary, general_mctdh with all contract labels, t3ns, add_auxiliary_space) for 1-6 (9) basis sets keep each basis once.",
+                    "permuted order; long thin trees (11 half-spin sets on a chain, a binary tree, a star, a comb with dummy nodes, a tree with two sets per node): blocks of the "
+                    "operator on the touched basis sets with the other sets held in basis states; tree constructors (linear, binary, general_mctdh with all contract labels, t3ns, add_auxiliary_space) for 1-6 (9) basis sets keep each basis once.",
         assumptions=["the QR decomposition variant is exercised on chains in C01; here the two graph algorithms", "real factors (the TTNO code asserts real operators)",
                      "merged factors are zero or above 1e-9", "`print_tree` (missing in this image) is replaced by an empty pretty-printer"],
         trusted_base=["z3 5.1", "NumPy object loops", "opt_einsum path execution"],
